@@ -75,6 +75,9 @@ func c07Shapes(tier string) []c07shape {
 		{name: "map-looping-closure", text: "(map (fn [x] (lp 0)) [1 2])"},
 		{name: "apply-loop", text: "(apply lp [0])"},
 		{name: "swap!-looping-function", text: "(swap! a (fn [x] (lp 0)))"},
+		// a swap! whose update function makes its own round stale, for ever: every round ends with a look at the context
+		{name: "swap!-that-loses-every-round", text: "(swap! a (fn [x] (reset! a (+ x 1)) x))"},
+		{name: "swap!-that-loses-every-round-in-handler", text: "(try (throw 1) (catch e (t! :h) (swap! a (fn [x] (reset! a (+ x 1)) x))))", depth: 1},
 		{name: "terminating", text: "(do (t! 1) (t! 2) 5)"},
 		{name: "terminating-try-finally", text: "(try (do (t! 1) 5) (finally (t! :fin) 6))", finally: true, depth: 1},
 		{name: "throw-then-handler-loops", text: "(try (throw 1) (catch e (t! :h) (lp 0)))", depth: 1},
